@@ -9,9 +9,10 @@ package main
 // every marshalled byte string, every decode→encode result — must have exactly one variant.
 // A variation is attributed by a narrow classifier next to it; only the classes listed in
 // known_findings.json are tolerated.
-// On top: the eval-site oracles (record literal, `in` over a set, containsAll/Any, key sorting) whose
-// Go-side outcome sets are compared with the Lean model's order-parameterised functions run over all
-// orders (ops c14.*), and the authz correspondence.
+// On top: the eval-site oracles (record literal, `in` over a set, containsAll/Any, key sorting): the Go-side
+// outcome — computed independently, entry by entry / member by member — is compared with the Lean model's
+// order-parameterised functions run over ALL orders (ops c14.*: one outcome each since the repairs), and the
+// authz correspondence.
 
 import (
 	"bytes"
@@ -464,7 +465,9 @@ func trunc(s string, n int) string {
 
 // ---- eval-site oracles + correspondence with the Lean model ----
 
-func c14KindName(v types.Value) string {
+// c14GoTypeName: the name internal/eval.TypeName gives a non-entity value (written out here: the oracle must not
+// call the code under test)
+func c14GoTypeName(v types.Value) string {
 	switch v.(type) {
 	case types.Boolean:
 		return "bool"
@@ -472,8 +475,6 @@ func c14KindName(v types.Value) string {
 		return "long"
 	case types.String:
 		return "string"
-	case types.EntityUID:
-		return "entity"
 	case types.Set:
 		return "set"
 	case types.Record:
@@ -483,26 +484,20 @@ func c14KindName(v types.Value) string {
 	case types.Datetime:
 		return "datetime"
 	case types.Duration:
-		return "duration"
+		return "unknown type" // internal/eval.TypeName has no case for Duration
 	case types.IPAddr:
-		return "ip"
+		return "IP"
 	}
 	return "?"
 }
 
 var c14GotRe = regexp.MustCompile(`got (.*)$`)
 
-// the type name inside a ValueToEntity message, as the model's kind name
-func c14MsgKind(msg string) string {
+// the type name inside a ValueToEntity message
+func c14MsgName(msg string) string {
 	m := c14GotRe.FindStringSubmatch(msg)
 	if m == nil {
 		return "?" + msg
-	}
-	switch m[1] {
-	case "IP":
-		return "ip"
-	case "unknown type": // internal/eval.TypeName has no case for Duration
-		return "duration"
 	}
 	return m[1]
 }
@@ -565,20 +560,31 @@ func c14EvalSites(c *vh.Ctx) {
 			rc.observed[s] = true
 			rc.msgs[msg] = true
 		}
-		anyErr := false
-		for _, e := range els { // entry-wise: any erroring entry may be met first
+		// independent oracle: the entries one by one in ascending key order, the first error wins (a function of
+		// the literal since `fix: evaluate the entries of a record literal in key order`); entryErrs = what an
+		// evaluation in Go map order could have reported (the defect, if it returns)
+		sorted := append([]ast.RecordElementNode{}, els...)
+		sort.Slice(sorted, func(i, j int) bool { return sorted[i].Key < sorted[j].Key })
+		entryErrs := map[string]bool{}
+		want := ""
+		for _, e := range sorted {
 			vh.Protect(func() {
 				if v, err := eval.Eval(e.Value, env.Env); err != nil {
-					anyErr = true
-					rc.expected[vh.ShowRes(v, err)] = true
+					entryErrs[vh.ShowRes(v, err)] = true
+					if want == "" {
+						want = vh.ShowRes(v, err)
+					}
 				}
 			})
 		}
-		if !anyErr {
-			for s := range rc.observed {
-				rc.expected[s] = true
+		if want == "" { // no entry fails: the record of the entries' values
+			vals := types.RecordMap{}
+			for _, e := range els {
+				vh.Protect(func() { v, _ := eval.Eval(e.Value, env.Env); vals[e.Key] = v })
 			}
+			want = vh.ShowRes(types.NewRecord(vals), nil)
 		}
+		rc.expected[want] = true
 		var encEls []any
 		for _, e := range els {
 			encEls = append(encEls, []any{vh.Hex(string(e.Key)), vh.EncExpr(e.Value)})
@@ -589,8 +595,14 @@ func c14EvalSites(c *vh.Ctx) {
 		c.Dist(fmt.Sprintf("reclit:erroring-entries=%d", nErr))
 		c.Res.OracleChecks++
 		for s := range rc.observed {
-			if !rc.expected[s] {
-				c.Report(vh.Finding{Class: "reclit-outcome-unexplained", What: fmt.Sprintf("record literal produced %q, which is not the outcome of any entry order (%s)", s, c14Join(rc.expected)), Check: "oracle", Op: "c14.reclit", Input: rc.payload, Expected: c14Join(rc.expected), Actual: s})
+			if rc.expected[s] {
+				continue
+			}
+			if entryErrs[s] { // the error of ANOTHER erroring entry: evaluation followed some other order
+				c.Dist("class:" + c14ClassRecord)
+				c.Report(vh.Finding{Class: c14ClassRecord, What: fmt.Sprintf("record literal reported %q, the error of an entry that is not the erroring entry with the least key (%s)", s, want), Check: "oracle", Op: "c14.reclit", Input: rc.payload, Expected: want, Actual: s})
+			} else {
+				c.Report(vh.Finding{Class: "reclit-outcome-unexplained", What: fmt.Sprintf("record literal produced %q, expected %q (entries in key order, first error wins)", s, want), Check: "oracle", Op: "c14.reclit", Input: rc.payload, Expected: want, Actual: s})
 			}
 		}
 		if len(rc.msgs) > 1 {
@@ -598,6 +610,34 @@ func c14EvalSites(c *vh.Ctx) {
 			c.Report(vh.Finding{Class: c14ClassRecord, What: fmt.Sprintf("the same record literal, same environment, %d runs: messages %q", N, c14Join(rc.msgs)), Check: "oracle", Op: "c14.reclit", Input: rc.payload, Expected: "one message", Actual: c14Join(rc.msgs)})
 		}
 		recs = append(recs, rc)
+	}
+
+	// (1b) a hand-built record node that REPEATS a key (no parser, decoder or builder produces one): ToEval stores
+	// the entries in a map, so only the last entry of a key is evaluated — an earlier one is not, even if it would
+	// fail.  The shared model does the same (`canonKVs`); correspondence through the shared op `eval`.
+	for i := 0; i < c.N(200, 2000); i++ {
+		n := 2 + r.Intn(4)
+		var els []ast.RecordElementNode
+		for k := 0; k < n; k++ {
+			var v ast.IsNode
+			if r.Intn(3) == 0 {
+				v = errs[r.Intn(len(errs))].Node
+			} else {
+				v = oks[r.Intn(len(oks))].Node
+			}
+			els = append(els, ast.RecordElementNode{Key: types.String(c14Keys[r.Intn(3)]), Value: v})
+		}
+		env := envs[r.Intn(len(envs))]
+		node := ast.NodeTypeRecord{Elements: els}
+		impl, stable := evalImpl(node, env.Env)
+		c.Res.OracleChecks++
+		if !stable {
+			c.Report(vh.Finding{Class: c14ClassRecord, What: fmt.Sprintf("record literal with a repeated key: four evaluations differ (first %q)", impl), Check: "oracle", Op: "eval", Input: map[string]any{"expr": vh.EncExpr(node)}})
+			continue
+		}
+		line := b.Add("eval", map[string]any{"expr": vh.EncExpr(node), "envref": b.EnvRef(env)}, impl, "")
+		c.Count(b.Key(line)+env.Name, true)
+		c.Dist("reclit:repeated-key")
 	}
 
 	// (2) `in` over a set literal: which member the message names
@@ -616,31 +656,43 @@ func c14EvalSites(c *vh.Ctx) {
 			vh.Protect(func() {
 				_, err := eval.Eval(node, env.Env)
 				if err != nil {
-					observed[c14MsgKind(err.Error())] = true
+					observed[c14MsgName(err.Error())] = true
 					msgs[err.Error()] = true
 				} else {
 					observed["none"] = true
 				}
 			})
 		}
+		// independent oracle: of the type names of the non-entity members the one that sorts first (the message is a
+		// fixed text followed by that name); anyName = what a first-member-met evaluation could have named
 		var encMem []any
+		anyName := map[string]bool{}
+		want := "none"
 		for _, m := range mem {
 			encMem = append(encMem, vh.EncValue(m))
 			if _, ok := m.(types.EntityUID); !ok {
-				expected[c14KindName(m)] = true
+				nm := c14GoTypeName(m)
+				anyName[nm] = true
+				if want == "none" || nm < want {
+					want = nm
+				}
 			}
 		}
-		if len(expected) == 0 {
-			expected["none"] = true
-		}
+		expected[want] = true
 		payload := map[string]any{"members": encMem}
 		line := b.Add("c14.inmsg", payload, c14Join(expected), "")
 		c.Count(b.Key(line), n >= 2)
-		c.Dist(fmt.Sprintf("inmsg:nonentity-kinds=%d", len(expected)))
+		c.Dist(fmt.Sprintf("inmsg:nonentity-kinds=%d", len(anyName)))
 		c.Res.OracleChecks++
 		for s := range observed {
-			if !expected[s] {
-				c.Report(vh.Finding{Class: "inmsg-unexplained", What: fmt.Sprintf("`in` over a set reported %q, not one of %s", s, c14Join(expected)), Check: "oracle", Op: "c14.inmsg", Input: payload, Expected: c14Join(expected), Actual: s})
+			if expected[s] {
+				continue
+			}
+			if anyName[s] {
+				c.Dist("class:" + c14ClassInSet)
+				c.Report(vh.Finding{Class: c14ClassInSet, What: fmt.Sprintf("`in` over a set named %q, the type of a non-entity member that is not the one sorting first (%s)", s, want), Check: "oracle", Op: "c14.inmsg", Input: payload, Expected: want, Actual: s})
+			} else {
+				c.Report(vh.Finding{Class: "inmsg-unexplained", What: fmt.Sprintf("`in` over a set reported %q, expected %s", s, want), Check: "oracle", Op: "c14.inmsg", Input: payload, Expected: want, Actual: s})
 			}
 		}
 		if len(msgs) > 1 {
